@@ -522,6 +522,10 @@ class Main {
     let _ = Main.show({ let _ = Process.println("left true again"); true } || Main.say("not evaluated either", false));
     let _ = Main.show({ let _ = Process.println("left false"); false } || Main.say("right evaluated too", true));
     let _ = Main.show(Main.say("a", false) && Main.say("b", true) || Main.say("c", true) && !Main.say("d", false));
+    let _ = Main.show(Main.say("l1", false) && { let _ = Process.println("right operand must not run"); true });
+    let _ = Main.show(Main.say("l2", true) || { let _ = Process.println("right operand must not run either"); false });
+    let _ = Main.show(Main.say("l3", true) && { let _ = Process.println("right of and runs"); false });
+    let _ = Main.show(Main.say("l4", false) || { let _ = Process.println("right of or runs"); true });
     let _ = Process.println(Str.fromInt(Main.num("x", 1) + Main.num("y", 2) * Main.num("z", 3)));
     let _ = Process.println(Str.fromInt(Main.drain(3)) :: " " :: Str.fromInt(Main.drain(0)) :: " " :: Str.fromInt(Main.count(4)) :: " " :: Str.fromInt(Main.last(4)));
     let _ = Main.num("discarded", 9);
@@ -529,7 +533,7 @@ class Main {
     let _ = Process.println(Str.fromInt(t.e0 * 10 + t.e1));
   }
 }"#,
-      "left operand evaluated\nF\nleft true\nright evaluated\nF\nleft true again\nT\nleft false\nright evaluated too\nT\na\nc\nd\nT\nx\ny\nz\n7\n0 5 4 7\ndiscarded\nfirst\nsecond\n12",
+      "left operand evaluated\nF\nleft true\nright evaluated\nF\nleft true again\nT\nleft false\nright evaluated too\nT\na\nc\nd\nT\nl1\nF\nl2\nT\nl3\nright of and runs\nF\nl4\nright of or runs\nT\nx\ny\nz\n7\n0 5 4 7\ndiscarded\nfirst\nsecond\n12",
       None,
     ),
 
